@@ -263,6 +263,19 @@ def _numericish(t):
 
 
 def cmp(op, a, b):
+    r = _cmp0(op, a, b)
+    # a length is a non-negative integer: 0 < len(x), 1 <= len(x), len(x) != 0 are one test; so are
+    # len(x) < 1, len(x) <= 0, len(x) == 0
+    if r[0] == 'cmp':
+        o, x, y = r[1], r[2], r[3]
+        if (o == '<' and x == C(0) and _is_len(y)) or (o == '<=' and x == C(1) and _is_len(y)):
+            return _cmp0('!=', y, C(0))
+        if (o == '<' and _is_len(x) and y == C(1)) or (o == '<=' and _is_len(x) and y == C(0)):
+            return _cmp0('==', x, C(0))
+    return r
+
+
+def _cmp0(op, a, b):
     if op == '>':
         op, a, b = '<', b, a
     elif op == '>=':
@@ -309,8 +322,14 @@ def cmp(op, a, b):
     return ('cmp', op, a, b)
 
 
+def _is_len(t):
+    return t[0] == 'call' and t[1] == ('g', 'len') and len(t[2]) == 1 and not t[3]
+
+
 def not_(a):
     k = a[0]
+    if _is_len(a):
+        return cmp('==', a, C(0))
     if k == 'c' and isinstance(a[1], bool):
         return C(not a[1])
     if k == 'not':
